@@ -176,15 +176,23 @@ func (r *RandomChoiceSelection) Select(pool UpstreamPool, _ *layer4.Connection) 
 	if k > len(pool) {
 		k = len(pool)
 	}
+	// reservoir sampling over the available upstreams only, so that
+	// unavailable ones neither take a slot nor leave a slot empty
 	choices := make([]*Upstream, k)
-	for i, upstream := range pool {
+	seen := 0
+	for _, upstream := range pool {
 		if !upstream.available() {
 			continue
 		}
-		j := weakrand.Intn(i + 1)
-		if j < k {
+		if seen < k {
+			choices[seen] = upstream
+		} else if j := weakrand.Intn(seen + 1); j < k {
 			choices[j] = upstream
 		}
+		seen++
+	}
+	if seen < k {
+		choices = choices[:seen]
 	}
 	return leastConns(choices)
 }
@@ -423,12 +431,17 @@ func leastConns(upstreams []*Upstream) *Upstream {
 	var best []*Upstream
 	var bestReqs int
 	for _, upstream := range upstreams {
+		if upstream == nil {
+			continue
+		}
 		reqs := upstream.totalConns()
 		if reqs == 0 {
 			return upstream
 		}
-		if reqs <= bestReqs {
+		if len(best) == 0 || reqs < bestReqs {
 			bestReqs = reqs
+			best = append(best[:0], upstream)
+		} else if reqs == bestReqs {
 			best = append(best, upstream)
 		}
 	}
